@@ -24,7 +24,7 @@ Mixed == [A |-> 18, F |-> 165, B |-> 0, C |-> 255, D |-> 127, E |-> 128, H |-> 1
           IFF1 |-> TRUE, IFF2 |-> FALSE, IM |-> 2]
 Ctx(r, mk, val) ==
   [r |-> r, m |-> <<>>, dev |-> [mk |-> mk, seed |-> 9, val |-> val, len |-> 65536, img |-> <<>>],
-   io |-> [ik |-> "hash", seed |-> 3, len |-> 0], iom |-> <<>>, nin |-> 0, rd |-> <<>>, wr |-> <<>>, pio |-> <<>>,
+   io |-> [ik |-> "hash", seed |-> 3, len |-> 0], iom |-> <<>>, nin |-> 0, seen |-> <<>>, rd |-> <<>>, wr |-> <<>>, pio |-> <<>>,
    halt |-> FALSE, hc |-> <<0, 0>>, ovl |-> NoOvl, v |-> 0, u |-> 0, ralt |-> FALSE, tag |-> "",
    pend |-> None, aei |-> FALSE, rslack |-> 0]
 Ctxs == {Ctx(RegsOf(0, 0), "const", 0), Ctx(RegsOf(255, 65535), "const", 255), Ctx(Mixed, "hash", 0),
